@@ -237,9 +237,11 @@ type croppedLines struct {
 }
 
 func (c croppedLines) Render(width, height int) *term.Buffer {
+	// Shrink the padding if the width is too small to accommodate it.
+	padding := min(c.padding, width/2)
 	bb := term.NewBufferBuilder(width)
-	leftSpacing := ui.T(strings.Repeat(" ", c.padding))
-	rightSpacing := ui.T(strings.Repeat(" ", width-c.padding))
+	leftSpacing := ui.T(strings.Repeat(" ", padding))
+	rightSpacing := ui.T(strings.Repeat(" ", width-padding))
 	for i, line := range c.lines {
 		if i > 0 {
 			bb.Newline()
@@ -252,10 +254,10 @@ func (c croppedLines) Render(width, height int) *term.Buffer {
 		if extendStyle && len(left) > 0 {
 			left[0].Style = line[0].Style
 		}
-		acc := ui.Concat(left, line.TrimWcwidth(width-2*c.padding))
+		acc := ui.Concat(left, line.TrimWcwidth(width-2*padding))
 		if extendStyle || selected {
 			right := rightSpacing.Clone()
-			if extendStyle {
+			if extendStyle && len(right) > 0 {
 				right[0].Style = line[len(line)-1].Style
 			}
 			acc = ui.Concat(acc, right).TrimWcwidth(width)
